@@ -237,6 +237,7 @@ let cmd_splay t =
       let m = next_int t in
       let lookups = ref [] in
       for _ = 1 to m do lookups := out_str (do_op (read_lookup ())) :: !lookups done;
+      ignore (do_op (SplayOps.OGet k));   (* the harness looks the key up again to compare addresses *)
       let after = find () in
       let same = match before, after with
         | None, None -> true
@@ -247,18 +248,64 @@ let cmd_splay t =
   done;
   Printf.printf "splay %s %s\n" id (String.concat " " (List.rev !outs))
 
+
+(* ---------- exact region oracle ---------- *)
+(* scene <id> <prec> <law tokens ...> ; <nregions> region*
+   region := E <nrings> ring* | Y <npoly> polygon*       (float coordinates, converted exactly)
+   law    := in k | true | false | not L | and L L | or L L | xor L L | eq L L   (prefix) *)
+exception Nonfinite
+let qpt_of_tok f t : Slab.qpt =
+  let x : SpecFloat.spec_float = Obj.obj (float_of_tok f (next t)) in
+  let y : SpecFloat.spec_float = Obj.obj (float_of_tok f (next t)) in
+  match Convert.sfpt x y with Some p -> p | None -> raise Nonfinite
+
+let rec read_law t : Scene.law =
+  match next t with
+  | "in" -> Scene.LIn (nat_of_int (next_int t))
+  | "true" -> Scene.LTrue
+  | "false" -> Scene.LFalse
+  | "not" -> Scene.LNot (read_law t)
+  | "and" -> let a = read_law t in let b = read_law t in Scene.LAnd (a, b)
+  | "or" -> let a = read_law t in let b = read_law t in Scene.LOr (a, b)
+  | "xor" -> let a = read_law t in let b = read_law t in Scene.LXor (a, b)
+  | "eq" -> let a = read_law t in let b = read_law t in Scene.LEq (a, b)
+  | s -> failwith ("bad law token " ^ s)
+
+let read_qring f t : Slab.ring = read_list t (qpt_of_tok f)
+let read_qpolygon f t : Slab.qpolygon =
+  match read_list t (read_qring f) with
+  | [] -> { Slab.q_ext = []; Slab.q_holes = [] }
+  | ext :: holes -> { Slab.q_ext = ext; Slab.q_holes = holes }
+
+let read_region f t : Scene.region =
+  match next t with
+  | "E" -> Scene.REo (read_list t (read_qring f))
+  | "Y" -> Scene.RPoly (read_list t (read_qpolygon f))
+  | s -> failwith ("bad region tag " ^ s)
+
+let cmd_scene t =
+  let id = next t in
+  let f = fmt_of_string (next t) in
+  let l = read_law t in
+  (match next t with ";" -> () | s -> failwith ("expected ; got " ^ s));
+  (try
+     let sc = read_list t (read_region f) in
+     Printf.printf "scene %s %s\n" id (if Scene.check_scene sc l then "true" else "false")
+   with Nonfinite -> Printf.printf "scene %s nonfinite\n" id)
+
 let () =
   try
     while true do
       let line = input_line stdin in
       let line = String.trim line in
       if line <> "" && line.[0] <> '#' then begin
-        let t = { a = Array.of_list (String.split_on_char ' ' line); i = 0 } in
+        let t = { a = Array.of_list (List.filter (fun s -> s <> "") (String.split_on_char ' ' line)); i = 0 } in
         (match next t with
          | "bool" -> cmd_bool t
          | "fillq" -> cmd_fillq t
          | "subdiv" -> cmd_subdiv t
          | "splay" -> cmd_splay t
+         | "scene" -> cmd_scene t
          | c -> Printf.printf "error unknown command %s\n" c);
         flush stdout
       end
